@@ -200,4 +200,11 @@ theorem c13_migration_keeps_identity (A B : Rec) (useA : Bool)
     · have := whole_copy A B _ "AuthKey" 0 "AuthKey" _ t.2.2.2.2.1 (by simpa using ha)
       simpa using this
 
+/-- **C13.F1 (a factory reset keeps the identity)** in the regenerated list of what factory_defaults puts aside before zeroing the
+    record and puts back afterwards, GUID, AuthKey and the tag are there with their whole field lengths -/
+theorem c13_factory_keeps_identity :
+    ("GUID", Gen.cfgLayout.guidLen, Gen.cfgLayout.guidLen) ∈ Gen.factoryKept ∧
+    (∃ n, ("AuthKey", n, n) ∈ Gen.factoryKept ∧ 0 < n) ∧ ("TAG", 6, 6) ∈ Gen.factoryKept := by
+  refine ⟨by decide, ⟨16, by decide, by decide⟩, by decide⟩
+
 end SuplaVerif.C13
